@@ -49,6 +49,8 @@ namespace detail{
     double* suv1c=suv1.components;
     double* suv2c=suv2.components;
     auto size=suv1.size;
+    if(size==0) //empty operands (default constructed or moved from): nothing to compute
+      return;
     SQUIDS_COMPILER_ASSUME(size>=1);
     //if the number of components is odd, handle the first and adjust pointers
     //to refer to the remainder.
@@ -81,6 +83,8 @@ namespace detail{
     double* suv1c=suv1.components;
     double* suv2c=suv2.components;
     auto size=suv1.size;
+    if(size==0) //empty operands (default constructed or moved from): nothing to compute
+      return;
     SQUIDS_COMPILER_ASSUME(size>=1);
     //if the number of components is odd, handle the first and adjust pointers
     //to refer to the remainder.
@@ -113,6 +117,8 @@ namespace detail{
     
     double* suv1c=suv1.components;
     auto size=suv1.size;
+    if(size==0) //empty operands (default constructed or moved from): nothing to compute
+      return;
     SQUIDS_COMPILER_ASSUME(size>=1);
     //if the number of components is odd, handle the first and adjust pointers
     //to refer to the remainder.
@@ -144,6 +150,8 @@ namespace detail{
     
     double* suv1c=suv1.components;
     auto size=suv1.size;
+    if(size==0) //empty operands (default constructed or moved from): nothing to compute
+      return;
     SQUIDS_COMPILER_ASSUME(size>=1);
     //if the number of components is odd, handle the first and adjust pointers
     //to refer to the remainder.
@@ -233,6 +241,8 @@ namespace detail{
     double* suv1c=this->suv1.components;
     double* suv2c=this->suv2.components;
     auto size=this->suv1.size;
+    if(size==0) //empty operands (default constructed or moved from): nothing to compute
+      return;
     SQUIDS_COMPILER_ASSUME(size>=1);
     //if the number of components is odd, handle the first and adjust pointers
     //to refer to the remainder.
